@@ -24,7 +24,7 @@ for pid, p in props.items():
     subprocess.run(["git", "-C", "/repo", "worktree", "add", "-q", "--detach", wt, "HEAD"], check=True)
     os.makedirs(wt + "/mutation", exist_ok=True)
     taken = []
-    for suffix in "abcdef":
+    for suffix in "abcdefghij":
         m = os.path.join(HERE, "seeded", "%s-%s" % (pid, suffix), "meta.json")
         if os.path.exists(m):
             taken.append(json.load(open(m)).get("summary", ""))
